@@ -101,7 +101,8 @@ def ensure_facts(config='all', repo=REPO, target_dir=None, verbose=False):
     if all(os.path.exists(w) for w in want):
         return want, info
     os.makedirs(os.path.join(CACHE, 'facts', config), exist_ok=True)
-    lock = open(os.path.join(CACHE, 'facts', config, '.lock'), 'w')
+    # one lock for all configurations: they share the cargo target directory whose fingerprints are cleared below
+    lock = open(os.path.join(CACHE, 'facts', '.lock'), 'w')
     fcntl.flock(lock, fcntl.LOCK_EX)
     try:
         if all(os.path.exists(w) for w in want):
